@@ -397,15 +397,18 @@ impl Prop for C20 {
         let mode = if rng.chance(2, 3) { SizeMode::Uncompressed } else { SizeMode::Compressed };
         let mut mix = FrameMix::swarm(rng);
         mix.ver = 0;
+        let giant = rng.chance(1, 25);
         let target = match rng.below(10) {
+            _ if giant => rng.usize(66_000, 140_000),
             0 => rng.usize(8_000, 30_000),
             1..=3 => rng.usize(1_000, 8_000),
             _ => rng.usize(4, 1_000),
         };
-        let frames = gen::gen_frames_to_target(rng, mode, &mix, target, 2000, stats);
+        let frames = gen::gen_frames_to_target(rng, mode, &mix, target, 40_000, stats);
         let (stream, ends) = gen::concat(&frames);
         // partition the byte stream into binary messages
-        let style = rng.below(6);
+        // a giant session travels as one message (or very few): beyond any 16-bit length
+        let style = if giant { 4 } else { rng.below(6) };
         let mut cuts: Vec<usize> = Vec::new();
         match style {
             0 => cuts = ends.clone(),                                            // one frame per message
@@ -519,7 +522,7 @@ impl Prop for C20 {
                         bytes += b.len();
                     }
                     batch.push(m);
-                    if bytes > 24_000 {
+                    if bytes > 24_000 && !giant {
                         break;
                     }
                 }
@@ -696,6 +699,9 @@ impl Prop for C20 {
                                 }
                                 if b.len() > 6120 {
                                     rep.probe("ws_msg_gt_6120");
+                                }
+                                if b.len() > 65_535 {
+                                    rep.probe("ws_msg_gt_65535");
                                 }
                                 if after - before >= 2 {
                                     rep.probe("several_frames_per_message");
@@ -987,6 +993,7 @@ impl Prop for C20 {
             "close_with_other_status",
             "read_dropped_after_first_poll",
             "control_message_storm",
+            "ws_msg_gt_65535",
             "end_of_stream_queued_behind_unread_data",
         ]
     }
